@@ -254,6 +254,7 @@ func main() {
 	a := vlib.ParseArgs()
 	res := vlib.NewResult("C18", a.Out, "prior histories built with lib/dbh programs over the option lattice x 4 comparers, ending in each of 5 situations (data only in the journal; tables at several levels; Close with compaction pending; Close with an open transaction owning tables; Close with live snapshots and iterators), half of them switched with SetReadOnly before Close; on each: read-only Open of a CLONE of the storage (audit: zero mutating operations, data = Go map incl. journal-only data, writes rejected), every reflected method after Close (class, no panic, no hang, no storage operation), released handles, reopen (lock free, exclusive); plus generated call sequences replayed on the Coq machine, calls racing with Close, and the real file storage; non-trivial = the history left unflushed journal data AND >= 2 populated levels")
 	c := &collector{res: res, out: a.Out, histDone: map[int]int{}}
+	leveldb.VerifSetTableOpenedHook(tableOpenedHook)
 	defer res.Write()
 	defer c.flushKnown()
 	base := os.Getenv("VERIF_TMP")
